@@ -4,11 +4,12 @@
    Model (Nstart/Nstart.v): one datagram session of libcoap - state, con_active, delay queue,
    this session's nodes of the send queue - under every sequence of events
    Submit CON|NON, ACK, RST, timer, separate response (cancel by token), Up, Fail.
-   [ns_wf c] = the RST branch as repaired (/repo adf1662) and 0 <= NSTART <= 255 (con_active
+   [ns_wf c] = the code as repaired (/repo adf1662, 39d6f14) and 0 <= NSTART <= 255 (con_active
    is a uint8_t).  [NoDup (ns_sub_mids evs)] = the application uses fresh message ids
    (coap_new_message_id).  No hypothesis on the peer is needed for the repaired code: the
    theorems hold for ACKs / RSTs of arbitrary ids, which includes the property's peer. *)
-From LibcoapV Require Import Base.Tactics Nstart.Nstart Nstart.NstartProofs.
+From LibcoapV Require Import Base.Tactics Nstart.Nstart Nstart.NstartProofs Nstart.NstartFail
+  Nstart.NstartFailProofs.
 Local Open Scope Z_scope.
 
 (* Bound, for every reachable state and on the observable history.  con_active is exactly the
@@ -104,6 +105,41 @@ Theorem C08_example :
   ns_nack_count 8 (flat_map snd (ns_trace ns_cfg_ex (ns_init false) ns_evs_ex)) = 1%nat.
 Proof. exact ns_example. Qed.
 Print Assumptions C08_example.
+
+(* Failing socket writes (coap_socket_send returns -1; NstartFail.v: the event NsfErr makes the
+   next write fail, wherever it is attempted - coap_send, the flush loop, a retransmission).
+   Whatever fails, con_active stays the number of the session's CON nodes in the send queue and
+   never exceeds NSTART, and the delay queue still holds only never-transmitted messages. *)
+Theorem C08_bound_write_failures : forall c est0 evs, ns_wf c ->
+  let s := nsf_s (nsf_run c (nsf_init est0) evs) in
+  ns_act s = Z.of_nat (length (ns_sq s)) /\ forallb ns_ncon (ns_sq s) = true /\
+  Z.of_nat (length (ns_sq s)) <= ns_nstart c /\ forallb ns_cnt0 (ns_dq s) = true.
+Proof. exact nsf_bound. Qed.
+Print Assumptions C08_bound_write_failures.
+
+(* the extension changes nothing while no write fails: states and outputs are those of the
+   session machine, so the theorems above are theorems about the extended machine too *)
+Theorem C08_write_failures_conservative : forall c evs x, nsf_wfail x = false ->
+  nsf_s (nsf_run c x (map NsfEv evs)) = ns_run c (nsf_s x) evs /\
+  map snd (nsf_trace c x (map NsfEv evs)) = map snd (ns_trace c (nsf_s x) evs).
+Proof. exact nsf_no_err. Qed.
+Print Assumptions C08_write_failures_conservative.
+
+(* The code as found: coap_retransmit released the slot of the node (con_active--) for
+   coap_send_pdu to take it again, which it does not do when the write fails - but the node stays
+   in the send queue.  Submit CON 1; the retransmission of 1 fails; Submit CON 2 goes out: two
+   CONs in flight with NSTART = 1 (replayed on the real code: corpus/C08/fixed.case; repaired by
+   /repo 39d6f14). *)
+Theorem C08_found_write_failure_refuted :
+  exists evs,
+    let x := nsf_run ns_cfg_found (nsf_init true) evs in
+    let t := nsf_trace ns_cfg_found (nsf_init true) evs in
+    map ns_nmid (ns_sq (nsf_s x)) = [1; 2] /\ forallb ns_ncon (ns_sq (nsf_s x)) = true /\
+    ns_act (nsf_s x) = 1 /\
+    Z.of_nat (length (ns_sq (nsf_s x))) > ns_nstart ns_cfg_found /\
+    nsb_run ns_cfg_found [] t 0 = Some 3.
+Proof. exact nsf_bound_refuted_found. Qed.
+Print Assumptions C08_found_write_failure_refuted.
 
 (* The code as found (pinned commit, ns_fixed = false): the RST branch of coap_dispatch
    decremented con_active before it looked the message id up.  A peer that resets a NON it
